@@ -237,14 +237,15 @@ fn gen_history(rng: &mut Rng, n: usize) -> Vec<XOp> {
                 let nb = rng.range(1, 3) as usize;
                 let mut blocks = vec![];
                 for _ in 0..nb {
+                    // at most one dispute and one penalty per block: the tower iterates breaches and
+                    // confirmations in hash-map order, and the enumeration of crash points needs the
+                    // order of the durable writes inside an operation to be the same in every run
                     let mut txs = vec![];
-                    for l in 1..=3u32 {
-                        if rng.chance(1, 4) {
-                            txs.push(l);
-                        }
-                        if rng.chance(1, 6) {
-                            txs.push(1000 + l * 10);
-                        }
+                    if rng.chance(1, 2) {
+                        txs.push(rng.range(1, 3) as u32);
+                    }
+                    if rng.chance(1, 3) {
+                        txs.push(1000 + rng.range(1, 3) as u32 * 10);
                     }
                     blocks.push(txs);
                 }
@@ -411,7 +412,13 @@ pub fn run(seed: u64, thorough: bool, rep: &mut Report) {
                         };
                         let dropped: i64 = before.appts.iter().filter(|(k, _)| k.1 == u && !after.appts.contains_key(k)).map(|(_, v)| slots_of(v.0.len()) as i64).sum();
                         if a > b + grant {
-                            rep.fail("C03", "crash_granted_slots", &format!("u{u}: available+occupied {b} -> {a} across a crash in {op:?}"));
+                            // replacing an appointment by a smaller one returns the difference first
+                            let shrinking = match op {
+                                XOp::Add { user, loc, blob, .. } if *user == u => before.appts.get(&(*loc, u)).map_or(false, |r| slots_of(r.0.len()) > slots_of(w.live.sys.build_blob(blob).0.len())),
+                                _ => false,
+                            };
+                            let fp = if shrinking { "crash_between_refund_and_shrunk_row" } else { "crash_granted_slots" };
+                            rep.fail("C03", fp, &format!("u{u}: available+occupied {b} -> {a} across a crash in {op:?}"));
                         }
                         if a < b - cost - dropped {
                             rep.fail("C03", "crash_cost_exceeds_request", &format!("u{u}: available+occupied {b} -> {a}, request in flight costs {cost}"));
